@@ -188,7 +188,7 @@ Qed.
 
 Lemma seq_delete_live s h k : in_range k -> knext s k = LIVE ->
   seq_op tagged s h (Delete k) =
-  Some (mkK k (fupd (knext s) k (kfree s)) (kdtor s) (kgen s), remove1 k h, kdtor s k).
+  Some (mkK k (fupd (knext s) k (kfree s)) (fupd (kdtor s) k 0) (kgen s), remove1 k h, kdtor s k).
 Proof.
   intros H E. unfold seq_op, start. rewrite key_oor_false by exact H. cbn [run_thread tick].
   rewrite E. change (LIVE =? LIVE) with true. cbn [run_thread tick kfree]. rewrite Z.eqb_refl. reflexivity.
@@ -225,7 +225,7 @@ Qed.
 
 Theorem seq_delete_spec s h k : kinv s h ->
   (In k h /\ exists s', seq_op tagged s h (Delete k) = Some (s', remove1 k h, kdtor s k) /\
-                        kinv s' (remove1 k h) /\ kgen s' = kgen s) \/
+                        kinv s' (remove1 k h) /\ kgen s' = kgen s /\ kdtor s' = fupd (kdtor s) k 0) \/
   (~ In k h /\ seq_op tagged s h (Delete k) = Some (s, h, ERR)).
 Proof.
   intros (fl & Hc & Hnd & Hin & Hlive).
@@ -238,7 +238,7 @@ Proof.
     pose proof (remove1_perm k h Hk) as Pk.
     assert (P : Permutation ((k :: fl) ++ remove1 k h) (fl ++ h)).
     { cbn [app]. rewrite Pk at 2. apply Permutation_middle. }
-    split; [|reflexivity].
+    split; [|split; reflexivity].
     exists (k :: fl). cbn [knext kfree chain]. split; [|split; [|split]].
     + split; [reflexivity|]. rewrite fupd_same. apply chain_fupd; assumption.
     + eapply Permutation_NoDup; [symmetry; exact P|exact Hnd].
@@ -263,7 +263,7 @@ Proof.
   assert (Hstep : exists s1 h1 x, seq_op tagged s h o = Some (s1, h1, x) /\ kinv s1 h1).
   { destruct o as [d|k].
     - destruct (seq_create_spec s h d Hi) as [[_ E]|[_ (k & s' & E & _ & _ & _ & _ & Hi' & _)]]; eauto 6.
-    - destruct (seq_delete_spec s h k Hi) as [[_ (s' & E & Hi' & _)]|[_ E]]; eauto 6. }
+    - destruct (seq_delete_spec s h k Hi) as [[_ (s' & E & Hi' & _ & _)]|[_ E]]; eauto 6. }
   destruct Hstep as (s1 & h1 & x & E & Hi1). rewrite E.
   destruct (IH s1 h1 Hi1) as (s2 & h2 & rs & E2 & Hi2 & Hl). rewrite E2.
   eexists _, _, _. split; [reflexivity|]. split; [exact Hi2|]. cbn [length]. rewrite Hl. reflexivity.
@@ -314,9 +314,42 @@ Theorem seq_history_delete os s h rs k : seq_hist tagged kinit [] os = Some (s, 
   (~ In k h /\ seq_op tagged s h (Delete k) = Some (s, h, ERR)).
 Proof.
   intros H. pose proof (seq_hist_kinv os s h rs H) as Hi.
-  destruct (seq_delete_spec s h k Hi) as [[G1 (s' & G2 & _ & _)]|G]; [left|right; exact G].
+  destruct (seq_delete_spec s h k Hi) as [[G1 (s' & G2 & _ & _ & _)]|G]; [left|right; exact G].
   split; [exact G1|]. exists s'. split; [exact G2|].
   destruct (kinv_distinct s h Hi) as (Hnd & _). apply remove1_nodup. exact Hnd.
+Qed.
+
+(** a deleted key has no destructor: in every state reached by a history the
+    destructor column is NULL outside the live keys *)
+Definition dead_no_dtor (s : kst) (h : list Z) : Prop := forall k, ~ In k h -> kdtor s k = 0.
+
+Lemma seq_hist_dead_no_dtor os : forall s h s' h' rs, kinv s h -> dead_no_dtor s h ->
+  seq_hist tagged s h os = Some (s', h', rs) -> dead_no_dtor s' h'.
+Proof.
+  induction os as [|o r IH]; intros s h s' h' rs Hi Hd H; cbn [seq_hist] in H.
+  - inversion H; subst. exact Hd.
+  - destruct (seq_op tagged s h o) as [[[s1 h1] x]|] eqn:E; [|discriminate].
+    destruct (seq_hist tagged s1 h1 r) as [[[s2 h2] xs]|] eqn:E2; [|discriminate].
+    inversion H; subst; clear H.
+    assert (G : kinv s1 h1 /\ dead_no_dtor s1 h1).
+    { destruct o as [d|k].
+      - destruct (seq_create_spec s h d Hi) as [[_ E1]|[_ (k & sa & E1 & _ & _ & Hdk & Hdo & Hi' & _)]];
+          rewrite E1 in E; inversion E; subst; [split; assumption|].
+        split; [exact Hi'|]. intros k' Hn. rewrite Hdo; [apply Hd; intros H; apply Hn; right; exact H|].
+        intros ->. apply Hn. left. reflexivity.
+      - destruct (seq_delete_spec s h k Hi) as [[Hin (sa & E1 & Hi' & _ & Ed)]|[_ E1]];
+          rewrite E1 in E; inversion E; subst; [|split; assumption].
+        split; [exact Hi'|]. intros k' Hn. rewrite Ed. unfold fupd.
+        destruct (Z.eqb_spec k' k) as [->|Hne]; [reflexivity|].
+        apply Hd. intros H. apply Hn. apply remove1_in_other; assumption. }
+    destruct G as [G1 G2]. eapply IH; eassumption.
+Qed.
+
+Theorem seq_history_dead_no_dtor os s h rs : seq_hist tagged kinit [] os = Some (s, h, rs) ->
+  forall k, ~ In k h -> kdtor s k = 0.
+Proof.
+  intros H. eapply (seq_hist_dead_no_dtor os kinit [] s h rs kinv_init); [|exact H].
+  intros k _. reflexivity.
 Qed.
 
 (** ** many create/delete cycles of one index: the closed form *)
@@ -338,7 +371,7 @@ Proof.
   unfold kst_ext, cycle_n, s1. cbn [kfree knext kdtor kgen]. fold k.
   split; [reflexivity|]. split; [|split].
   - intros i. unfold fupd. destruct (i =? k) eqn:E; [apply Z.eqb_eq in E; subst; reflexivity|reflexivity].
-  - intros i. reflexivity.
+  - intros i. unfold fupd. destruct (i =? k); reflexivity.
   - intros i. unfold bump. destruct tagged; reflexivity.
 Qed.
 
@@ -548,14 +581,15 @@ Qed.
 (* a delete passes its liveness check *)
 Lemma cinv_check fl s t k :
   cinv_at fl s -> nth_error (threads s) t = Some (DCheck k) -> knext (ks s) k = LIVE ->
-  cinv_at fl (mkS (ks s) (remove1 k (held s)) (set_nth (threads s) t (DHead k (kdtor (ks s) k)))).
+  cinv_at fl (mkS (mkK (kfree (ks s)) (knext (ks s)) (fupd (kdtor (ks s)) k 0) (kgen (ks s)))
+                  (remove1 k (held s)) (set_nth (threads s) t (DHead k (kdtor (ks s) k)))).
 Proof.
   intros [Hc Hnf Hnh Hflr Hheld Hdisj Hdet Huniq Hcov Hloc] Ht Hlive.
   pose proof (Hloc t _ Ht) as Hr. cbn [local_ok] in Hr.
   destruct (remove1_nodup k (held s) Hnh) as [Hnd' Hnk].
   assert (Hkfl : ~ In k fl).
   { intros H. apply (chain_not_live _ _ _ Hc Hflr k H). exact Hlive. }
-  constructor; cbn [ks held threads]; try assumption.
+  constructor; cbn [ks held threads knext kfree]; try assumption.
   - intros k' Hk'. apply Hheld. eapply remove1_in; exact Hk'.
   - intros k' Hk' H. apply (Hdisj k' Hk'). eapply remove1_in; exact H.
   - intros u q k' Hu Hq. destruct (nth_set_nth_inv _ _ _ _ _ _ Ht Hu) as [[-> ->]|[Hne Hu']].
